@@ -701,7 +701,7 @@ PREFIX_NAMES = ("prefix", "prefix_", "dotted")
 
 
 def dag_plan(k, quick):
-    """Rows (kinds, variant, declaration orders: 'all' | 'few', link-order level (-1: as listed only), also
+    """Rows (kinds, variant, declaration orders: 'all' | 'few' | 'first', link-order level (-1: as listed only), also
     cycle-closing links [, name scheme, target parameters 'p' | 'd'])."""
     gs = ["".join(p) for p in itertools.product("GS", repeat=k)]
     gsa = ["".join(p) for p in itertools.product("GSA", repeat=k)]
@@ -714,12 +714,14 @@ def dag_plan(k, quick):
         for names in PREFIX_NAMES:
             for kinds in gsa:
                 for v in ("whole", "attr+fn") if quick else VARIANTS[:4]:
-                    rows.append((kinds, v, "all", 0, True, names, "p"))
+                    rows.append((kinds, v, "all", 0, v == "whole" or not quick, names, "p"))
         # value alphabet: every None / falsy attribute value (alone, through compute_fn, first argument of a
         # multi-source compute_fn) and the ordinary values, all into parameters with a non-None default, x all kinds
+        # (quick: first declaration order only - with both edge directions and all kind pairs enumerated, the other
+        # order is the same parser up to the class / parameter names)
         for kinds in gsa:
             for v in VARIANTS[:4] + VALUE_VARIANTS:
-                rows.append((kinds, v, "all", 0, False, "plain", "d"))
+                rows.append((kinds, v, "first" if quick else "all", 0, False, "plain", "d"))
     elif k == 3 and quick:
         for kinds in gs + ["AAA", "AGA"]:
             rows.append((kinds, "whole", "all", 0, True))
@@ -728,8 +730,8 @@ def dag_plan(k, quick):
                 rows.append((kinds, v, "all", 0, v == "attr+fn"))
         for v in ("attr", "whole+fn"):
             rows.append(("GSG", v, "all", 0, False))
-        # prefix-related names: every DAG x every declaration order (GGG also both link orders and every closing link)
-        rows += [("GGG", "whole", "all", 0, True, "prefix", "p"), ("SGS", "attr+fn", "all", -1, False, "prefix", "p")]
+        # prefix-related names: every DAG x every declaration order (GGG also both link orders; dotted: every closing link)
+        rows += [("GGG", "whole", "all", 0, False, "prefix", "p"), ("SGS", "attr+fn", "all", -1, False, "prefix", "p")]
         rows += [("GGG", "whole", "all", -1, False, "prefix_", "p"), ("GSG", "whole", "all", -1, True, "dotted", "p")]
         # None / falsy attribute values inside every DAG (first and last declaration order)
         rows += [("SGS", "attr:n", "few", -1, False, "plain", "d"), ("GSG", "attr:n+fn", "few", -1, False, "plain", "d")]
@@ -773,7 +775,7 @@ def dag_cases(quick):
                     continue
                 orders = (link_orders(links, max(level, 0)) if links else [[]])[: 1 if level < 0 else None]
                 if links:
-                    for decl in decls if decl_mode == "all" else few:
+                    for decl in {"all": decls, "few": few, "first": decls[:1]}[decl_mode]:
                         for lo in orders:
                             yield {"layer": "dag", "kinds": kinds, "decl": decl, "links": lo, **more}
                 # every single extra link that closes a cycle (self-loops included).  The declaration order cannot
@@ -1199,8 +1201,8 @@ def explore(ctx):
         "prefix-related component names: > 1000 dag, > 100 hier, > 50 within cases",
     )
     ctx.require(
-        fam["dag"]["falsy_valued"] > 800 and fam["hier"]["falsy_valued"] > 50 and fam["within"]["falsy_valued"] > 50,
-        "None / falsy source attribute values: > 800 dag, > 50 hier, > 50 within cases",
+        fam["dag"]["falsy_valued"] > 400 and fam["hier"]["falsy_valued"] > 50 and fam["within"]["falsy_valued"] > 50,
+        "None / falsy source attribute values: > 400 dag, > 50 hier, > 50 within cases",
     )
     # guards on what the implementation was seen doing: they protect a PASS verdict only.  When the run reports a
     # violation anyway (a deviation that is not a known finding) they are moot and must not turn it into exit 2.
